@@ -1551,9 +1551,9 @@ insert_list:
         auto state = th->state;
         if (unlikely(state != states::SLEEPING)) {
         out: // may have thread_yield()-ed
+            VT_EVT(VT_INTR_READY, th, (int64_t)error_number, state, 0);
             if (state == states::READY && th->error_number == 0)
                 th->error_number = error_number;
-            VT_EVT(VT_INTR_READY, th, (int64_t)error_number, state, 0);
             return;
         }
         SCOPED_LOCK(th->lock);
